@@ -28,6 +28,8 @@ structure Tables where
   attachGuard : List Exc
   firstRead : List Exc
   firstReadDrains : Bool
+  firstDrainSkips : List Exc
+  firstDrainEnds : List Exc
   traceDecode : List Exc
   methodDecode : List Exc
   pointerGuard : List Exc
@@ -40,7 +42,8 @@ def Tables.gen : Tables :=
   { supers := Gen.C05.supers, serveLoop := Gen.C05.serveLoop, readRequestTry := Gen.C05.readRequestTry,
     versionGate := Gen.C05.versionGate, validation := Gen.C05.validation, methodCall := Gen.C05.methodCall,
     attachMdDecode := Gen.C05.attachMdDecode, attachGuard := Gen.C05.attachGuard, firstRead := Gen.C05.firstRead,
-    firstReadDrains := Gen.C05.firstReadDrainsOnIpcError, traceDecode := Gen.C05.traceDecode,
+    firstReadDrains := Gen.C05.firstReadDrainsOnIpcError, firstDrainSkips := Gen.C05.firstReadDrainSkips,
+    firstDrainEnds := Gen.C05.firstReadDrainEnds, traceDecode := Gen.C05.traceDecode,
     methodDecode := Gen.C05.methodDecode, pointerGuard := Gen.C05.pointerGuard, asPyGuard := Gen.C05.asPyGuard, releaseGuard := Gen.C05.releaseGuard,
     drainSkips := Gen.C05.drainSkips, drainEnds := Gen.C05.drainEnds }
 
@@ -124,15 +127,18 @@ inductive Ex (α : Type) where
   | blocks
 deriving Repr
 
-/-- `_drain_stream(reader)` -/
-def drain (T : Tables) : List Step → Step
+/-- a drain loop: read until a class in `ends` (StopIteration) is raised, stepping over the classes in `skips` -/
+def drainWith (T : Tables) (skips ends : List Exc) : List Step → Step
   | [] => .ok
-  | .ok :: r => drain T r
+  | .ok :: r => drainWith T skips ends r
   | .raises e :: r =>
-      if caught T T.drainEnds e then .ok
-      else if caught T T.drainSkips e then drain T r
+      if caught T ends e then .ok
+      else if caught T skips e then drainWith T skips ends r
       else .raises e
   | .blocks :: _ => .blocks
+
+/-- `_drain_stream(reader)` -/
+def drain (T : Tables) (l : List Step) : Step := drainWith T T.drainSkips T.drainEnds l
 
 /-- `_maybe_attach_shm(md, kind)` on a non-HTTP transport: `some seg` / `None` -/
 def maybeAttach (T : Tables) (rq : Req) : Ex Bool :=
@@ -205,7 +211,8 @@ def readRequest (T : Tables) (rq : Req) : Ex Unit :=
       if caught T T.firstRead e then
         if isA T e .StopIteration then .raises .RpcError          -- the reader is already at EOS
         else if T.firstReadDrains then
-          match drain T rq.laterReads with
+          -- the handler's own drain (`_drain_stream`, or the inline loop) before the refusal
+          match drainWith T T.firstDrainSkips T.firstDrainEnds rq.laterReads with
           | .ok => .raises .RpcError
           | .raises e' => .raises e'
           | .blocks => .blocks
